@@ -111,6 +111,10 @@ theorem C20_backend_no_ub (b : Backend) (op : Op) (f : Fault)
     cases op <;> simp [Backend.step] at h
     all_goals (cases hr : (r.read).1 <;> simp [hr] at h)
   | iterI r => cases op <;> simp [Backend.step] at h
+  | iterFL r =>
+    cases op <;> simp [Backend.step] at h
+    all_goals (cases hr : (r.read).1 <;> simp [hr] at h)
+  | iterIL r => cases op <;> simp [Backend.step] at h
   | cbF cb =>
     cases op <;> simp [Backend.step] at h
     case write w => cases hw : (cb.write w).1 <;> simp [hw] at h
